@@ -31,6 +31,14 @@ package main
 //	X FAILCOMMIT <n>                 the next n database write transactions run completely and are then rolled back
 //	X FAILCONN create|add|move       the next connector call of that kind fails
 //	X CHECK                          full checkpoint
+//	X LIMITS <mailboxes> <messages>  server closed and reopened with gluon.WithIMAPLimits (mailbox count, messages per mailbox;
+//	                                 kept over later restarts): commands then fail because a limit is reached
+//	S<i> DEL <uidset>                UID STORE <set> +FLAGS.SILENT (\Deleted), UID EXPUNGE <set>: chosen messages go
+//	S<i> BUSY fetch|search|store     a command that delivers no EXPUNGE (the session stays behind other sessions' expunges)
+//	C REMOVE <marker> <mb>           connector MessageRemoved (the message leaves one mailbox)
+//	C DELMSG <marker>                connector MessageDeleted (the message leaves every mailbox)
+//	X FAILCONN mbcreate              the connector's next CreateMailbox fails (CREATE, RENAME creating superiors)
+//	(a `+` in the name of CREATE stands for a space: `Recovered+Messages/x`)
 //	X FIXTURE <name>                 (first step only) the server is opened on a scratch copy of the upgrade fixture
 //	                                 $VERIF_CORPUS/fixtures/<name> and the history recorded there is continued (o_uids_fixture.go)
 //	S<i> RACE <p>|rec <command> // <second party's step>
@@ -77,6 +85,7 @@ import (
 	"github.com/ProtonMail/gluon/connector"
 	"github.com/ProtonMail/gluon/db"
 	"github.com/ProtonMail/gluon/imap"
+	"github.com/ProtonMail/gluon/limits"
 )
 
 // ---- connector that survives restarts, knows mailbox/message ids, and can fail on demand ---------
@@ -92,6 +101,8 @@ type c04Conn struct {
 	// foreign: the server's database was not written under this remote (upgrade fixtures, o_uids_fixture.go): the
 	// remote accepts operations on messages it has never seen instead of dereferencing its empty tables
 	foreign bool
+	// limits: server option of this history (step X LIMITS), kept over restarts
+	limits *limits.IMAP
 }
 
 // knownTo: the message ids the dummy remote has in its tables.
@@ -139,6 +150,9 @@ func (c *c04Conn) takeFail(kind string) bool {
 }
 
 func (c *c04Conn) CreateMailbox(ctx context.Context, w connector.IMAPStateWrite, name []string) (imap.Mailbox, error) {
+	if c.takeFail("mbcreate") {
+		return imap.Mailbox{}, c04ErrInjected
+	}
 	m, err := c.Dummy.CreateMailbox(ctx, w, name)
 	if err == nil {
 		c.mu.Lock()
@@ -282,13 +296,17 @@ var c04Flags = imap.NewFlagSet(imap.FlagSeen, imap.FlagFlagged, imap.FlagDeleted
 // UIDVALIDITY generator (a fresh one per start, as in production).
 func c04NewSys(dir, userID string, conn *c04Conn, dbw *c04DB, sync bool) (*Sys, error) {
 	rec := &panicRecorder{}
-	srv, err := gluon.New(
+	opts := []gluon.Option{
 		gluon.WithDataDir(filepath.Join(dir, "store")),
 		gluon.WithDatabaseDir(filepath.Join(dir, "db")),
 		gluon.WithDelimiter("/"),
 		gluon.WithPanicHandler(rec),
 		gluon.WithDBClient(dbw),
-	)
+	}
+	if conn.limits != nil {
+		opts = append(opts, gluon.WithIMAPLimits(*conn.limits))
+	}
+	srv, err := gluon.New(opts...)
 	if err != nil {
 		return nil, err
 	}
@@ -339,6 +357,7 @@ type c04Sess struct {
 	sel  string // selected mailbox name, "" if none
 	uidv int
 	ro   bool
+	view []c04Msg // what the session saw at its last VIEW (NOOP + listing); it may be behind since
 }
 
 type c04Run struct {
@@ -641,6 +660,17 @@ func c04ExpandSet(s string) []int {
 	return out
 }
 
+// c04Superiors: "a/b/c" -> a, a/b (the server's delimiter is "/").
+func c04Superiors(name string) []string {
+	var out []string
+	for k := 0; k < len(name); k++ {
+		if name[k] == '/' && k > 0 {
+			out = append(out, name[:k])
+		}
+	}
+	return out
+}
+
 func c04JoinInts(xs []int) string {
 	var p []string
 	for _, x := range xs {
@@ -770,11 +800,18 @@ func (r *c04Run) exec1(step string) (touched []string, full bool, err error) {
 			r.conn.failNext[arg(2)]++
 			r.conn.mu.Unlock()
 			return nil, false, nil
-		case "RESTART":
+		case "RESTART", "LIMITS":
 			sync, drop := false, false
-			for _, w := range f[2:] {
-				sync = sync || w == "sync"
-				drop = drop || w == "drop"
+			if f[1] == "LIMITS" {
+				nmb, _ := strconv.Atoi(arg(2))
+				nmsg, _ := strconv.Atoi(arg(3))
+				l := limits.NewIMAPLimits(uint32(nmb), uint32(nmsg), imap.UID(1<<32-1), imap.UID(1<<32-1))
+				r.conn.limits = &l
+			} else {
+				for _, w := range f[2:] {
+					sync = sync || w == "sync"
+					drop = drop || w == "drop"
+				}
 			}
 			for i, s := range r.sess {
 				if s != nil {
@@ -848,6 +885,25 @@ func (r *c04Run) exec1(step string) (touched []string, full bool, err error) {
 				return nil, false, nil
 			}
 			return []string{arg(3)}, false, r.conn.Dummy.MessageAdded(id, mb)
+		case "REMOVE":
+			r.conn.mu.Lock()
+			id, ok := r.conn.msgIDs[arg(2)]
+			r.conn.mu.Unlock()
+			mb, ok2 := r.conn.mboxID(arg(3))
+			if !ok || !ok2 {
+				r.stats["step.skipped-remove-unknown"]++
+				return nil, false, nil
+			}
+			return []string{arg(3)}, false, r.conn.Dummy.MessageRemoved(id, mb)
+		case "DELMSG":
+			r.conn.mu.Lock()
+			id, ok := r.conn.msgIDs[arg(2)]
+			r.conn.mu.Unlock()
+			if !ok {
+				r.stats["step.skipped-remove-unknown"]++
+				return nil, false, nil
+			}
+			return nil, true, r.conn.Dummy.MessageDeleted(id)
 		case "MBCREATE":
 			if r.exists[arg(2)] {
 				// (a DELETE generated just before may have failed) a second remote mailbox with the name of an
@@ -963,7 +1019,38 @@ func (r *c04Run) exec1(step string) (touched []string, full bool, err error) {
 			}
 			r.emit("V:%s:%d:%s", c04EvName(s.sel), s.uidv, c04Pairs(ms))
 			r.stats["obs.view"]++
+			s.view = ms
 			return nil, false, nil
+		case "BUSY":
+			// commands whose flush delivers no EXPUNGE (FETCH / SEARCH / STORE): the session does something and still
+			// does not learn what other sessions expunged
+			if s.sel == "" {
+				return nil, false, nil
+			}
+			cmd := map[string]string{"fetch": "FETCH 1:* (FLAGS)", "search": "SEARCH ALL", "store": `STORE 1 +FLAGS.SILENT (\Answered)`}[arg(2)]
+			if cmd == "" || (arg(2) == "store" && s.ro) {
+				cmd = "FETCH 1:* (FLAGS)"
+			}
+			rep := c.Cmd(cmd)
+			r.stats["busy."+c04St(rep)]++
+			r.lostSession(i, rep)
+			return nil, false, nil
+		case "DEL":
+			if s.sel == "" || s.ro {
+				return nil, false, nil
+			}
+			rep := c.Cmd("UID STORE " + arg(2) + ` +FLAGS.SILENT (\Deleted)`)
+			if r.lostSession(i, rep) {
+				return []string{s.sel}, false, nil
+			}
+			if rep.Status == "OK" {
+				rep = c.Cmd("UID EXPUNGE " + arg(2))
+				r.stats["uidexpunge."+c04St(rep)]++
+				if r.lostSession(i, rep) {
+					return nil, false, nil
+				}
+			}
+			return []string{s.sel}, false, nil
 		case "APPEND", "APPENDBAD", "REAPPEND":
 			mb := arg(2)
 			var lit []byte
@@ -1058,13 +1145,20 @@ func (r *c04Run) exec1(step string) (touched []string, full bool, err error) {
 		case "CREATE":
 			r.genCalls++ // state.Create calls Generate() first thing, whatever happens next
 			lo := c04Clock()
-			rep := c.Cmd("CREATE " + c04Q(arg(2)))
+			name := strings.ReplaceAll(arg(2), "+", " ")
+			rep := c.Cmd("CREATE " + c04Q(name))
 			r.stats["create."+c04St(rep)]++
 			if r.lostSession(i, rep) {
 				return nil, true, nil
 			}
 			if rep.Status == "OK" {
-				r.emit("K:%s:%d", c04EvName(arg(2)), lo)
+				// (missing superiors are created along with it, under the same value)
+				for _, sup := range c04Superiors(strings.TrimRight(name, "/")) {
+					if !r.exists[sup] {
+						r.emit("K:%s:%d", c04EvName(sup), lo)
+					}
+				}
+				r.emit("K:%s:%d", c04EvName(strings.TrimRight(name, "/")), lo)
 			}
 			return nil, true, nil
 		case "DELETE":
@@ -1094,10 +1188,20 @@ func (r *c04Run) exec1(step string) (touched []string, full bool, err error) {
 			if strings.EqualFold(a, "INBOX") {
 				r.genCalls++
 			}
+			var newSup []string // missing superiors of the new name are created, each under a value of its own
+			for _, sup := range c04Superiors(b) {
+				if !r.exists[sup] {
+					newSup = append(newSup, sup)
+					r.genCalls++
+				}
+			}
 			lo := c04Clock()
 			rep := c.Cmd("RENAME " + c04Q(a) + " " + c04Q(b))
 			r.stats["rename."+c04St(rep)]++
 			if rep.Status == "OK" {
+				for _, sup := range newSup {
+					r.emit("K:%s:%d", c04EvName(sup), lo)
+				}
 				if strings.EqualFold(a, "INBOX") {
 					r.emit("K:%s:%d", c04EvName(b), lo) // a new mailbox that receives INBOX's messages
 				} else {
@@ -1165,6 +1269,51 @@ func (r *c04Run) gen(g *Rng, nsess int, genBudget int) []string {
 		return steps
 	}
 	ex := r.existing("")
+	// multi-party patterns (o_uids_pattern.go) in the middle of everything else
+	if r.genCalls+5 <= genBudget && g.Chance(1, 12) {
+		o := -1
+		if nsess >= 2 && g.Chance(2, 3) {
+			o = (i + 1) % nsess
+		}
+		if st := r.c04PatFailed(g, i, o, r.poolNames()[1:], false); st != nil {
+			r.stats["pattern.failed.gen"]++
+			return withWait(st...)
+		}
+	}
+	if g.Chance(1, 20) && len(ex) > 0 {
+		o := -1
+		if nsess >= 2 && g.Chance(2, 3) {
+			o = (i + 1) % nsess
+		}
+		if st := r.c04PatFailedUID(g, i, o, Pick(g, ex)); st != nil {
+			r.stats["pattern.faileduid.gen"]++
+			return st
+		}
+	}
+	if r.staleOK && g.Chance(1, 10) {
+		var full []string
+		for _, n := range ex {
+			if len(r.content[n]) >= 2 {
+				full = append(full, n)
+			}
+		}
+		if len(full) > 0 {
+			mb := Pick(g, full)
+			o := -1
+			if nsess >= 2 && g.Chance(3, 4) {
+				o = (i + 1) % nsess
+			}
+			dsts := r.existing(mb)
+			pre := []string{S("SELECT %s", mb)}
+			if o >= 0 {
+				pre = append(pre, c04S(o, "SELECT %s", mb))
+			}
+			if st := r.c04PatStale(g, i, o, mb, r.content[mb], dsts, r.scrambled); st != nil {
+				r.stats["pattern.stale.gen"]++
+				return append(pre, st...)
+			}
+		}
+	}
 	for tries := 0; tries < 50; tries++ {
 		switch k := g.Intn(100); {
 		case k < 8: // select something
@@ -1629,6 +1778,21 @@ var c04DirectedCopyuidOrder = []string{
 // c04DirectedCopyuidStaleMove: session 1 still sees UID 3, which session 0 has expunged; its MOVE 1:3 moves two
 // messages (actionMoveMessages keeps what is still in the source mailbox) but Mailbox.Move builds the COPYUID
 // source set from the snapshot: three source UIDs, two destination UIDs.
+// c04DirectedCopyuidStaleCopy: as copyuid-stale-move with COPY: session 1 still sees UID 2, which session 0 has
+// expunged, and copies 1:4. Whether the vanished message is copied along (it comes back in the destination) or left
+// out, the two sets of COPYUID must have equal lengths and pair every source UID with the UID that holds its message.
+var c04DirectedCopyuidStaleCopy = []string{
+	"S0 LOGIN", "S1 LOGIN",
+	"S0 CREATE src", "S0 CREATE dst",
+	"S0 APPEND src m1", "S0 APPEND src m2", "S0 APPEND src m3", "S0 APPEND src m4",
+	"S0 SELECT src", "S1 SELECT src", "S1 VIEW",
+	"S0 DEL 2",
+	"S1 BUSY fetch",
+	"S1 UIDCOPY 1:4 dst",
+	"S1 COPY 4,1:2 dst",
+	"X CHECK",
+}
+
 var c04DirectedCopyuidStaleMove = []string{
 	"S0 LOGIN", "S1 LOGIN",
 	"S0 CREATE src", "S0 CREATE dst",
@@ -1697,7 +1861,7 @@ func runC04UidsOracle(args []string) int {
 	steps := fs.Int("steps", 30, "steps per history (at least)")
 	par := fs.Int("par", 16, "histories run concurrently (they mostly wait for each other's barriers and for the clock)")
 	genBudget := fs.Int("genbudget", 10, "UIDVALIDITY generator calls a history may cause (bounds the clock wait after a restart)")
-	directed := fs.String("directed", "uidv-restart,copyuid-order,copyuid-stale-move,rename-onto-used,rollback-told", "directed scenarios run first (comma separated; `none`)")
+	directed := fs.String("directed", "uidv-restart,copyuid-order,copyuid-stale-move,copyuid-stale-copy,rename-onto-used,rollback-told", "directed scenarios run first (comma separated; `none`)")
 	catchup := fs.String("catchup", "mixed", "always | never | mixed: a session catches up (NOOP + listing) before COPY/MOVE; before the fix of the MOVE COPYUID length defect (directed scenario copyuid-stale-move) a history without it stopped being judged there")
 	dump := fs.Bool("log", false, "print the observation log of every history to stderr")
 	mkfixture := fs.String("mkfixture", "", "write the upgrade fixtures (database + store + expectations) of the tree this binary is built against into this directory and exit (o_uids_fixture.go)")
@@ -1705,6 +1869,8 @@ func runC04UidsOracle(args []string) int {
 	raceAll := fs.Bool("raceall", true, "every second-party kind (another session's APPEND, its COPY, connector MessageCreated, connector MessagesCreated) at every boundary; false: one per boundary, rotating")
 	fixtures := fs.String("fixtures", "all", "upgrade fixtures ($VERIF_CORPUS/fixtures/*) to open and continue: all | none | comma separated names")
 	fxSteps := fs.Int("fxsteps", 24, "generated steps after a fixture has been opened and checked")
+	patterns := fs.Int("patterns", 10, "pattern histories per kind (o_uids_pattern.go): failed command / other party on the same name / success; stale-view COPY and MOVE")
+	patRounds := fs.Int("patrounds", 5, "pattern rounds per pattern history")
 	ascending := fs.Bool("ascending", false, "generated COPY/MOVE sets are ascending and name no message twice (before fix 071c9b5 an unordered set made the server pair the COPYUID sets wrongly: directed scenario copyuid-order)")
 	_ = fs.Parse(args)
 	if *mkfixture != "" {
@@ -1737,6 +1903,8 @@ func runC04UidsOracle(args []string) int {
 				jobs = append(jobs, &job{name: "directed:" + d, replay: c04DirectedCopyuidOrder})
 			case "copyuid-stale-move":
 				jobs = append(jobs, &job{name: "directed:" + d, replay: c04DirectedCopyuidStaleMove})
+			case "copyuid-stale-copy":
+				jobs = append(jobs, &job{name: "directed:" + d, replay: c04DirectedCopyuidStaleCopy})
 			case "rename-onto-used":
 				jobs = append(jobs, &job{name: "directed:" + d, replay: c04DirectedRenameOntoUsed})
 			case "rollback-told":
@@ -1753,6 +1921,12 @@ func runC04UidsOracle(args []string) int {
 			}
 		}
 		g := NewRng(*seed)
+		// multi-party patterns: failed command -> other party's operations on the same name -> success; stale-view COPY/MOVE
+		for k := 0; k < *patterns; k++ {
+			for _, kind := range []string{"failed", "stale"} {
+				jobs = append(jobs, &job{name: fmt.Sprintf("pattern:%s-seed%d-p%d", kind, *seed, k), script: c04PatternScript(kind, g.Fork(), *patRounds, !*ascending)})
+			}
+		}
 		// upgrade fixtures: opened by the tree under test, compared with what their writer showed, continued
 		if *fixtures != "none" {
 			for _, fx := range c04FixtureNames() {
